@@ -843,8 +843,19 @@ pub fn load_static_config(server: &mut Server, mut client: OptionalClient, path:
     let config = match path {
         Some(path) if !path.is_empty() => {
             info!("loading static configuration at path {}", path);
-            new_config = Config::load_from_path(path)
-                .unwrap_or_else(|_| panic!("cannot load configuration from '{path}'"));
+            // The path comes from a client of the command socket: a file that
+            // cannot be loaded is that client's error, not a reason to take the
+            // main process (and with it every other client's request) down.
+            new_config = match Config::load_from_path(path) {
+                Ok(config) => config,
+                Err(error) => {
+                    client.finish_failure(format!(
+                        "could not load configuration from '{path}': {error}"
+                    ));
+                    server.cancel_task(task_id);
+                    return;
+                }
+            };
             &new_config
         }
         _ => {
